@@ -503,6 +503,8 @@ func (t *Term) write(sb *strings.Builder) {
 			a.write(sb)
 		}
 		sb.WriteString(")")
+	case "tyinv":
+		t.Args[0].write(sb)
 	case "forall", "exists":
 		sb.WriteString("(" + t.Op + " (")
 		for i, v := range t.Bound {
@@ -663,4 +665,101 @@ func termSize(t *Term) int {
 		n += termSize(a)
 	}
 	return n
+}
+
+// TyInv marks a conjunction of type invariants of values read under a quantifier (ranges of machine integers,
+// non-negative lengths). They hold in every state, so the marked term is equivalent to true; it is kept where it
+// helps the solver: in the antecedent of a goal, and as a conjunct of the matrix of a universally quantified
+// hypothesis (liftTyinv).
+func TyInv(f *Term) *Term {
+	if f.IsTrue() {
+		return f
+	}
+	return &Term{Op: "tyinv", Args: []*Term{f}, Sort: SBool}
+}
+
+func stripTyinv(t *Term) *Term {
+	if t == nil {
+		return t
+	}
+	if t.Op == "tyinv" {
+		return stripTyinv(t.Args[0])
+	}
+	if !hasTyinv(t) {
+		return t
+	}
+	n := *t
+	n.Args = make([]*Term, len(t.Args))
+	for i, a := range t.Args {
+		n.Args[i] = stripTyinv(a)
+	}
+	return &n
+}
+
+func hasTyinv(t *Term) bool {
+	if t.Op == "tyinv" {
+		return true
+	}
+	for _, a := range t.Args {
+		if hasTyinv(a) {
+			return true
+		}
+	}
+	return false
+}
+
+// liftTyinv rewrites a formula that is asserted (positive polarity).
+func liftTyinv(t *Term, pos bool) *Term {
+	if !hasTyinv(t) {
+		return t
+	}
+	switch t.Op {
+	case "tyinv":
+		return stripTyinv(t.Args[0])
+	case "and", "or":
+		n := *t
+		n.Args = make([]*Term, len(t.Args))
+		for i, a := range t.Args {
+			n.Args[i] = liftTyinv(a, pos)
+		}
+		return &n
+	case "not":
+		return Not(liftTyinv(t.Args[0], !pos))
+	case "=>":
+		if len(t.Args) == 2 {
+			return Implies(liftTyinv(t.Args[0], !pos), liftTyinv(t.Args[1], pos))
+		}
+	case "forall":
+		if pos {
+			body := t.Args[0]
+			if body.Op == "=>" && len(body.Args) == 2 {
+				var ty, rest []*Term
+				ante := body.Args[0]
+				cs := []*Term{ante}
+				if ante.Op == "and" {
+					cs = ante.Args
+				}
+				for _, c := range cs {
+					if c.Op == "tyinv" {
+						ty = append(ty, stripTyinv(c.Args[0]))
+					} else {
+						rest = append(rest, liftTyinv(c, false))
+					}
+				}
+				n := *t
+				n.Args = []*Term{And(append(ty, Implies(And(rest...), liftTyinv(body.Args[1], true)))...)}
+				return &n
+			}
+			n := *t
+			n.Args = []*Term{liftTyinv(body, true)}
+			return &n
+		}
+	case "exists":
+		if pos {
+			n := *t
+			n.Args = []*Term{liftTyinv(t.Args[0], true)}
+			return &n
+		}
+	}
+	return stripTyinv(t)
 }
